@@ -420,6 +420,7 @@ class BodyGen:
             self.env.locals = saved
 
     top_depth = 2
+    call_helpers = None
 
     # ---- coroutine bodies
     def simple(self):
@@ -444,7 +445,9 @@ class BodyGen:
             if r.random() < 0.25:
                 forms += ['comment', 'whilefalse']
             if depth > 0 and r.random() < 0.3:
-                forms += ['match']
+                forms += ['match', 'matchdefault']
+            if r.random() < 0.2:
+                forms += ['awaitcall']
             if in_loop:
                 forms += ['break', 'continue'] if ticked else ['break']
             if self.allow.get('subs', True) and not in_sub and depth > 0:
@@ -496,7 +499,19 @@ class BodyGen:
                 self.features.add('if-in-coroutine')
                 ticked = t_all and ticked or (t_all and els is not None)
                 size -= 2
-            elif form == 'match':
+            elif form == 'awaitcall':
+                # `await fn()` where fn is a plain function with side effects that returns the signal to wait for: the side
+                # effects happen once, before the wait state
+                cands = self.eg.readable(lambda o: o.kind == 'bit' and o.role in ('in', 'sig', 'out'))
+                if not cands or self.call_helpers is None or in_sub:
+                    continue
+                name = self.env.fresh('rq')
+                self.call_helpers.append({'name': name, 'params': '', 'body': self.simple() + [('ret', r.choice(cands).src)]})
+                out.append(('awaitcall', name))
+                self.features.add('await-call-with-side-effects')
+                ticked = True
+                size -= 1
+            elif form in ('match', 'matchdefault'):
                 subj = self.eg.readable(lambda o: o.kind in ('u', 'bv') and o.w is not None and o.w >= 2 and o.role in ('in', 'sig', 'out'))
                 if not subj:
                     continue
@@ -506,11 +521,17 @@ class BodyGen:
                 arms = []
                 t_all = True
                 for v in vals:
-                    b, t = self.coro_body(r.randint(1, 3), depth - 1, in_loop, ticked, in_sub)
+                    if form == 'matchdefault':
+                        b, t = self.simple(), ticked          # only the default case suspends
+                    else:
+                        b, t = self.coro_body(r.randint(1, 3), depth - 1, in_loop, ticked, in_sub)
                     arms.append((str(v) if sk == 'u' else f"'{v:02b}'", b))
                     t_all = t_all and t
                 d = None
-                if r.random() < 0.5:
+                if form == 'matchdefault':
+                    d = [('await', self.eg.cond(1))] + self.simple()
+                    self.features.add('match-await-only-in-default')
+                elif r.random() < 0.5:
                     d, t = self.coro_body(r.randint(1, 2), depth - 1, in_loop, ticked, in_sub)
                     t_all = t_all and t
                 else:
@@ -760,12 +781,13 @@ def gen_coro_design(rnd, size=8, reset=None, depth=3, step_cond=False, subs=True
     env.wsig = oo + so
     env.wvar = vo
     bg = BodyGen(rnd, env, coro=True, allow={'subs': subs})
+    bg.call_helpers = []
     bg.marker = (Obj('acc', 'u', 6, 'acc', 'var'), Obj('self.mk', 'u', 6, 'mk', 'out'))
     body, _ = bg.coro_body(size, depth, False, False)
     if not body:
         body = [('await', bg.eg.cond(0))] + bg.simple()
-    wn = written_names(body, subs=bg.subs)
-    ctx = {'kind': 'coro', 'name': 'proc', 'body': body, 'helpers': [], 'subs': bg.subs,
+    wn = written_names(body, subs=bg.subs, helpers=bg.call_helpers)
+    ctx = {'kind': 'coro', 'name': 'proc', 'body': body, 'helpers': bg.call_helpers, 'subs': bg.subs,
            'pushed': [], 'driven': sorted(wn['sig'] | wn['push'] | wn['var'])}
     if reset:
         ctx['reset'] = reset
